@@ -53,12 +53,13 @@ class Violation(Exception):
 
 
 class PTable:
-    __slots__ = ("id", "m", "real", "session", "first_digest")
+    __slots__ = ("id", "m", "real", "session", "first_digest", "cq")
 
-    def __init__(self, id, m, real, session):
+    def __init__(self, id, m, real, session, cq=None):
         self.id = id
         self.m = m
-        self.real = real  # rep -> pdt.Table
+        self.real = real  # rep -> pdt.Table (executing replicas)
+        self.cq = cq or {}  # rep -> pdt.Table (compile-only dialect replicas, C19)
         self.session = session
         self.first_digest = {}  # (rep, kind) -> digest at first observation (O10.2)
 
@@ -88,6 +89,7 @@ class Machine:
         self.profile = cfg["profile"]
         self.fam = set(self.profile["oracles"])
         self.replicas = list(cfg["replicas"])
+        self.cq_reps = list(cfg.get("cq_replicas", []))
         self.rng = random.Random(self.seed)
         self.clock = UuidClock(self.seed, cfg.get("uuid_regime", "counter"))
         self.clock.install()
